@@ -58,6 +58,43 @@ def run(ctx):
                     "loop over %s in %s %s" % (s.text, q, "may not terminate: " + (bad or "unbounded iterator") if (bad or infinite) else "iterates a finite container that its body does not modify"),
                     not (bad or infinite),
                 )
+    # regular expressions evaluated by the validators/verifiers: no pattern whose matching time can
+    # explode on an adversarial string (nested unbounded repetitions over overlapping characters)
+    from sa.model import dotted_chain
+    from sa.strlang import exponential_backtracking
+
+    seen_pat = set()
+
+    def check_pattern(mod, call, where):
+        chain = dotted_chain(call.func)
+        if not chain:
+            return
+        r, rest = prog.resolve_dotted(mod, chain)
+        full = (r[1] + ("." + ".".join(rest) if rest else "")) if r[0] in ("ext", "extmod") else None
+        if full not in ("re.compile", "re.match", "re.fullmatch", "re.search", "re.sub", "re.subn", "re.split", "re.findall", "re.finditer"):
+            return
+        if not (call.args and isinstance(call.args[0], ast.Constant) and isinstance(call.args[0].value, str)):
+            return
+        st_ = prog.site(mod, call, where)
+        if st_.key() in seen_pat:
+            return
+        seen_pat.add(st_.key())
+        why = exponential_backtracking(call.args[0].value)
+        ctx.count("R3.patterns")
+        ctx.ob("R3", "regex|%s" % st_.key(), st_.loc(), "regular expression %r used in %s %s" % (call.args[0].value[:60], where, "cannot backtrack exponentially (no nested unbounded repetition over overlapping characters)" if not why else "may take exponential time on a crafted string: " + why), not why)
+
+    cone_mods = {prog.funcs[q].mod.short for q in cone}
+    for q in sorted(cone):
+        fi = prog.funcs[q]
+        for n in cg._own_nodes(fi):
+            if isinstance(n, ast.Call):
+                check_pattern(fi.mod, n, q)
+    for short in sorted(cone_mods):
+        m = prog.by_short[short]
+        for name, vals in m.consts.items():
+            for v in vals:
+                if isinstance(v, ast.Call):
+                    check_pattern(m, v, short + ".<module>")
     if any(o.rule == 'R3' and not o.ok and o.key.startswith('R3|recursion') for o in ctx.obligations):
         return  # summaries are undefined on a recursive cone; the violation above is the verdict
 
